@@ -341,6 +341,107 @@ func futureCase(r *vh.Rand) *Case {
 
 func describeTier(o vh.Opts) string { return fmt.Sprintf("tier=%s seed=%d", o.Tier, o.Seed) }
 
+// ---------------------------------------------------------------------------
+// look-alike values: per leaf, successive updates drawn from one small pool of
+// values that are easily confused by a value comparison
+
+func dec(d int64, p uint32) ValJ { return ValJ{K: "decimal", I: d, Prec: p} }
+func ll(vs ...ValJ) ValJ        { return ValJ{K: "leaflist", L: vs} }
+func f32(b uint32) ValJ         { return ValJ{K: "float", Bits: uint64(b)} }
+func f64(b uint64) ValJ         { return ValJ{K: "double", Bits: b} }
+
+var lookAlike = [][]ValJ{
+	// decimals: re-scaled encodings of one number, same digits other precision
+	{dec(150, 2), dec(15, 1), dec(1500, 3), dec(150, 1), dec(15, 2)},
+	// decimals whose digits collapse in float32 / float64
+	{dec(123456789, 2), dec(123456790, 2), dec(16777217, 0), dec(16777216, 0), dec(9007199254740993, 0), dec(9007199254740992, 0)},
+	{dec(0, 0), dec(0, 3), dec(-0, 1), dec(1, 0), dec(-1, 0)},
+	// leaf-lists: prefixes of each other, same length differing in the last element, empty, nested
+	{ll(), ll(*ival(1)), ll(*ival(1), *ival(2)), ll(*ival(1), *ival(3)), ll(*ival(1), *ival(2), *ival(3)), ll(*sval("1")), ll(ll(*ival(1))), ll(dec(15, 1)), ll(dec(150, 2))},
+	// the same number in different arms
+	{*ival(1), {K: "uint", I: 1}, *sval("1"), {K: "bytes", S: "1"}, {K: "json", S: "1"}, {K: "jsonietf", S: "1"}, {K: "ascii", S: "1"}, {K: "protobytes", S: "1"}, {K: "bool", B: true}, dec(1, 0), f32(0x3f800000), f64(0x3ff0000000000000), ll(*ival(1))},
+	// float vs double of 1.5, +0 / -0, NaN (two payloads), a value that differs in the last bit
+	{f32(0x3fc00000), f64(0x3ff8000000000000), f32(0x3fc00001), f64(0x3ff8000000000001)},
+	{f32(0), f32(0x80000000), f64(0), f64(0x8000000000000000), f32(0x7fc00000), f32(0x7fc00001), f64(0x7ff8000000000000), f64(0x7ff8000000000001)},
+	// strings / bytes that differ in case, trailing space, emptiness
+	{*sval(""), *sval(" "), *sval("a"), *sval("A"), *sval("a "), {K: "bytes", S: ""}, {K: "bytes", S: "a"}, {K: "none"}, {K: "any"}},
+}
+
+// valueCase: one or two leaves, 3..9 updates each from one pool, timestamps
+// non-decreasing (so equal timestamps meet proto.Equal, later ones value.Equal).
+func valueCase(r *vh.Rand) *Case {
+	c := &Case{Family: "values", Targets: []string{"t"}, Cfg: CfgJ{EventDriven: r.Chance(4, 5)}}
+	pool := lookAlike[r.Intn(len(lookAlike))]
+	n := 3 + r.Intn(7)
+	ts := int64(1)
+	for i := 0; i < n; i++ {
+		ts += int64(r.Pick(2, 3))
+		if r.Chance(1, 12) {
+			pool = lookAlike[r.Intn(len(lookAlike))]
+		}
+		v := pool[r.Intn(len(pool))]
+		leaf := []string{"b", "c"}[r.Pick(4, 1)]
+		switch r.Pick(14, 1, 1) {
+		case 0:
+			c.Ops = append(c.Ops, Op{K: "upd", N: updN(ts, pfx("t", "a"), pth(leaf), &v)})
+		case 1:
+			c.Ops = append(c.Ops, Op{K: "upd", N: delN(ts, pfx("t", "a"), pth(leaf))})
+		default: // the same pool inside an atomic container
+			w := pool[r.Intn(len(pool))]
+			c.Ops = append(c.Ops, Op{K: "upd", N: &NotiJ{TS: ts, Prefix: pfx("t", "g"), Atomic: true, Upd: []UpdJ{{Path: pth("x"), Val: &v}, {Path: pth("y"), Val: &w}}}})
+		}
+	}
+	return c
+}
+
+// mixedCase: stored updates whose prefix and path use different encodings
+// (elem vs the deprecated element), with siblings, then subtree / wildcard /
+// leaf deletes and Reset.
+func mixedCase(r *vh.Rand) *Case {
+	c := &Case{Family: "mixed-encoding", Targets: []string{"t"}, Cfg: CfgJ{EventDriven: r.Chance(1, 2)}}
+	k := 2 + r.Intn(4)
+	for i := 0; i < k; i++ {
+		leaf := []string{"b", "c", "d"}[r.Intn(3)]
+		ts := int64(1 + r.Intn(3))
+		v := ival(int64(1 + r.Intn(2)))
+		var n *NotiJ
+		switch r.Pick(3, 3, 2, 1, 1) {
+		case 0: // elem prefix, element path
+			n = updN(ts, pfx("t", "a"), &PathJ{Element: []string{leaf}}, v)
+		case 1: // element prefix, elem path
+			n = updN(ts, &PathJ{Target: "t", Element: []string{"a"}}, pth(leaf), v)
+		case 2: // both elem
+			n = updN(ts, pfx("t", "a"), pth(leaf), v)
+		case 3: // both element
+			n = updN(ts, &PathJ{Target: "t", Element: []string{"a"}}, &PathJ{Element: []string{leaf}}, v)
+		default: // two-level element path under an elem prefix
+			n = updN(ts, pfx("t", "a"), &PathJ{Element: []string{leaf, "x"}}, v)
+		}
+		c.Ops = append(c.Ops, Op{K: "upd", N: n})
+	}
+	if r.Chance(1, 3) {
+		c.Ops = append(c.Ops, Op{K: "upd", N: updN(2, pfx("t"), pth("q"), ival(1))})
+	}
+	nd := 1 + r.Intn(3)
+	for i := 0; i < nd; i++ {
+		ts := int64(3 + r.Intn(6))
+		if r.Chance(1, 6) {
+			c.Ops = append(c.Ops, Op{K: "reset", Tgt: "t", Now: ts})
+			continue
+		}
+		q := [][]string{{"a", "b"}, {"a", "c"}, {"a", "*"}, {"a"}, {"*"}, {"a", "b", "x"}}[r.Pick(4, 3, 2, 2, 1, 1)]
+		d := delN(ts, pfx("t"), pth(q...))
+		if r.Chance(1, 4) {
+			d = delN(ts, pfx("t"), &PathJ{Element: q})
+		}
+		c.Ops = append(c.Ops, Op{K: "upd", N: d})
+		if r.Chance(1, 3) {
+			c.Ops = append(c.Ops, Op{K: "upd", N: updN(ts+1, pfx("t", "a"), &PathJ{Element: []string{"b"}}, ival(3))})
+		}
+	}
+	return c
+}
+
 func checkLib() string {
 	if prop == "c03" {
 		return "Cache.C03Check"
@@ -355,7 +456,7 @@ func ruleText() string {
 	return "corpus cases; every history of 1..D calls (D=3 quick, 4 thorough) over {update v in {1,2} at ts in {1,2,3}, delete at ts in {1,2,3}} on one leaf, " +
 		"event-driven on; seeded random histories of 2..25 calls (single/multi/atomic/delete/empty notifications over index paths a/b a/c a/b/c a d[k]/e f with prefix/path splits, " +
 		"timestamps mostly in 1..4, clock in {0,1,3}, threshold in {0,2}, occasional Reset/Remove/Add, metadata paths, unknown targets); " +
-		"future-guard histories (threshold 2/3/-1, ts in -1..8, clock in 0..6). distinct = distinct (config, targets, calls); " +
+		"future-guard histories (threshold 2/3/-1, ts in -1..8, clock in 0..6); look-alike value histories (per leaf, successive updates from one pool of easily confused values of every TypedValue arm, non-decreasing timestamps); mixed elem/element encodings with siblings followed by deletes and Reset. distinct = distinct (config, targets, calls); " +
 		"non-trivial = some call was rejected as stale/future (also inside a multi notification) or some delete removed a leaf"
 }
 
@@ -363,7 +464,9 @@ const c03Rule = "corpus cases (witnesses of the two defects and of the path-orig
 	"(scalar a/b with two values and two timestamps, scalar a/c, atomic container at a/b, multi update+delete, deletes a/b a/* *, Reset, Remove, Add), event-driven on; " +
 	"seeded random histories of 2..25 calls over two targets (as C02, plus Reset/Remove/Add/Sync/Connect/ConnectError/UpdateMetadata under a non-decreasing clock); " +
 	"aliasing histories (2..4 leaves written through one shared prefix object with 1..3 spare slots, then subtree / wildcard / single deletes and Reset); " +
-	"atomic<->scalar histories on one index path with equal and different first values, event-driven on and off. " +
+	"atomic<->scalar histories on one index path with equal and different first values, event-driven on and off; " +
+	"look-alike value histories (per leaf, successive updates from one pool of easily confused values: re-scaled decimals, decimals collapsing in float32/float64, leaf-lists that are prefixes of each other / differ in the last element / nested, the same number as int/uint/string/bytes/json/ascii/decimal/float/double, float vs double, +0/-0, NaN, near-equal strings); " +
+	"mixed elem/element encodings of prefix and path with siblings, then subtree / wildcard / leaf deletes and Reset. " +
 	"distinct = distinct (config, targets, calls); non-trivial = the callback received at least one update and one delete notification, or an accepted update was withheld"
 
 func generate(e *emitter, o vh.Opts) {
@@ -391,6 +494,16 @@ func generate(e *emitter, o vh.Opts) {
 	}
 	for i := 0; i < nfut; i++ {
 		e.add(futureCase(r.Fork()))
+	}
+	nval, nmix := 700, 200
+	if o.Thorough() {
+		nval, nmix = 10000, 3000
+	}
+	for i := 0; i < nval; i++ {
+		e.add(valueCase(r.Fork()))
+	}
+	for i := 0; i < nmix; i++ {
+		e.add(mixedCase(r.Fork()))
 	}
 }
 
@@ -511,7 +624,7 @@ func generateC03(e *emitter, o vh.Opts) {
 	e.meta.Extra["exhaustive_alphabet_size"] = len(al)
 	e.meta.Extra["exhaustive_depth"] = depth
 	r := vh.NewRand(o.Seed)
-	nrand, nalias, nat := 1800, 500, 400
+	nrand, nalias, nat := 1500, 400, 300
 	if o.Thorough() {
 		nrand, nalias, nat = 30000, 8000, 6000
 	}
@@ -523,5 +636,15 @@ func generateC03(e *emitter, o vh.Opts) {
 	}
 	for i := 0; i < nat; i++ {
 		e.add(atomicScalarCase(r.Fork()))
+	}
+	nval, nmix := 800, 400
+	if o.Thorough() {
+		nval, nmix = 12000, 6000
+	}
+	for i := 0; i < nval; i++ {
+		e.add(valueCase(r.Fork()))
+	}
+	for i := 0; i < nmix; i++ {
+		e.add(mixedCase(r.Fork()))
 	}
 }
